@@ -8,6 +8,15 @@ HERE = os.path.dirname(os.path.dirname(os.path.abspath(__file__)))
 
 # pid -> (category, technique, level text, level note, design ref)
 CHECKS = {
+    "C08": (
+        "exploration",
+        "Hypothesis: generated signatures x call forms x value types; reference binder (positional -> named -> default -> None) and straight-line callee model; sibling-instance interleavings",
+        "Generated flow signatures and calls (positional/named/default mixes, simple and classic syntax, await/assign/start-ref, literal and event-carried "
+        "values incl. containers, None, bools and hostile strings) are executed by the real interpreter; the parameters echoed by the callee, the value "
+        "assigned by `$x = await f`, and the caller's/sibling's same-named variables must equal a Python reference binder and straight-line evaluation.",
+        "Trusts the 20-line reference binder; surplus positionals, globals, no-return assign-await, list literals as simple-syntax positionals and `$`/`{}` in literal strings are outside the domain.",
+        "DESIGN.md 4/C08",
+    ),
     "C05": (
         "exploration",
         "Hypothesis: generated sets of 2-6 competing flows (specificity, priority, action identity, loop, tie-break outcome); reference winner model with a validity predicate for ties",
